@@ -7,7 +7,8 @@ ID = "C19"
 LEVEL = "exploration"
 TECHNIQUE = "inline shadow monitor on hooked VM state (data words vs live frame geometry) at every instruction boundary, under ASan+UBSan"
 FLAVOURS = [("asan", "generated")]
-RULE = ("call-heavy generated programs (calls inside long loops, nested and chained calls, STOP inside callees, jumps out of loops); "
+RULE = ("call-heavy generated programs (calls inside long loops, nested and chained calls, STOP inside callees, jumps out of loops); half of them with reset() in the middle of the run (also inside callees) "
+        "followed by a rerun, a third driven with stepping mode on and a fifth with every breakpoint enabled, the final HALT really dispatched; "
         "the driver checks after EVERY executed instruction (also between PREPARE and EXEC and right after RET) that the frames are "
         "contiguous from word 0 in call order and that the number of data words equals the sum of the live frame sizes; "
         "non-trivial = at least one RET executed; distinct by SHA-1 of the source")
@@ -42,7 +43,12 @@ def make_cases(spec):
     for _ in range(spec["n"]):
         p = call_heavy(r)
         text = layouts.canonical(programs.to_lines(p, programs.Speller(r)))
-        opts = [("budget", spec["budget"]), ("program", 0)]
+        opts = [("budget", spec["budget"]), ("program", 0), ("via_execute", 0)]
+        q = r.random()
+        if q < 0.3:
+            opts.append(("stepping", 1))      # driven like a debugger: stepping mode on
+        elif q < 0.5:
+            opts.append(("breakall", 1))      # ... or with every breakpoint enabled
         if r.random() < 0.5:
             # reset() in the middle of the run (also while inside callees), then run on: the frames of the
             # abandoned activations must be gone as well
